@@ -170,10 +170,10 @@ PROPS = {
             "quick": {"hash_checks": 20000, "bdd_representations": 2000, "sdd_representations": 1300, "ddnnf_representations": 300,
                       "semantic_sdd_ops": 8000, "eq_on_equal_functions": 50000, "semantic_ddnnf_compilations": 450,
                       "semantic_ddnnf_conditionings": 2000, "semantic_sdd_compile_cnf": 500,
-                      "untrimmed_nodes_denoting_literal_or_constant": 100, "builder_hash_accessor_checks": 500, "semantic_builders_over_spread_labels": 100, "semantic_big_builders": 2, "semantic_big_minterms_checked": 500000},
+                      "untrimmed_nodes_denoting_literal_or_constant": 100, "builder_hash_accessor_checks": 500, "semantic_builders_over_spread_labels": 100, "semantic_big_builders": 2, "semantic_big_minterms_checked": 500000, "moduli_factored": 1, "zero_divisor_conjunctions_checked": 1},
             "thorough": {"hash_checks": 600000},
         },
-        "rule": "One evaluation = one hash or one semantic-builder operation. (hash) For a function f on <= 7 variables (parity, ite(x,g,!g), threshold, random, CNF-derived) and each prime in {U32_TINY, U32_SMALL, U64_LARGEST} the defining sum over the models of f of the product of create_semantic_hash_map weights is computed from the truth table with the harness's own modular arithmetic and compared with semantic_hash of BDDs under 3 random orders, SDDs under 2 random vtrees and top-down decision-DNNFs under 2 random orders (so all representations agree with each other); the negation must hash to 1 - h; cached_semantic_hash (asked twice, and through a second construction history) must equal it (one prime per builder, S3); hand-built BinarySDD / BddNode values made with the public constructors (also with complemented high edges, which no builder stores) must hash to the defining sum of the function they denote; the hash weights must sum to one. (semantic builders) SemanticSddBuilder<P> is driven through random and/or/negate/condition/exists histories (with templates that leave an untrimmed node denoting a literal and that reach one function along two routes) and compile_cnf, SemanticDecisionNNFBuilder<P> through compile_cnf_topdown and condition: for every prime eq() must be true on every pair of pool members (both polarities, both argument orders) whose oracle truth tables are equal; over U64_LARGEST every returned diagram must have the right truth table, under 32-bit primes a wrong table is a hash collision and only recorded (S4). Non-trivial = function neither constant nor literal; distinct = distinct (function, representation, sub-check) / (function, op, vtree). The semantic SDD builder's own accessors are checked too (cached_semantic_hash == recomputed == defining sum under the builder's map()), and a wide regime runs the semantic SDD histories over vtrees whose variables are spread over up to 200 labels. Scale regime semantic_big: one hash-identified builder (d-DNNF store, and SDD builder on a right-linear vtree) is filled with every suffix cube over 18 variables (524 286 nodes; 20 variables in the thorough tier) through get_or_insert / and, and each of the 2^18 full cubes is then evaluated structurally on its own assignment and two neighbours: a merge of two different functions (a collision in whatever part of the 64-bit hash the node table compares) shows as a cube that does not denote its minterm.",
+        "rule": "One evaluation = one hash or one semantic-builder operation. (hash) For a function f on <= 7 variables (parity, ite(x,g,!g), threshold, random, CNF-derived) and each prime in {U32_TINY, U32_SMALL, U64_LARGEST} the defining sum over the models of f of the product of create_semantic_hash_map weights is computed from the truth table with the harness's own modular arithmetic and compared with semantic_hash of BDDs under 3 random orders, SDDs under 2 random vtrees and top-down decision-DNNFs under 2 random orders (so all representations agree with each other); the negation must hash to 1 - h; cached_semantic_hash (asked twice, and through a second construction history) must equal it (one prime per builder, S3); hand-built BinarySDD / BddNode values made with the public constructors (also with complemented high edges, which no builder stores) must hash to the defining sum of the function they denote; the hash weights must sum to one. (semantic builders) SemanticSddBuilder<P> is driven through random and/or/negate/condition/exists histories (with templates that leave an untrimmed node denoting a literal and that reach one function along two routes) and compile_cnf, SemanticDecisionNNFBuilder<P> through compile_cnf_topdown and condition: for every prime eq() must be true on every pair of pool members (both polarities, both argument orders) whose oracle truth tables are equal; over U64_LARGEST every returned diagram must have the right truth table, under 32-bit primes a wrong table is a hash collision and only recorded (S4). Non-trivial = function neither constant nor literal; distinct = distinct (function, representation, sub-check) / (function, op, vtree). The semantic SDD builder's own accessors are checked too (cached_semantic_hash == recomputed == defining sum under the builder's map()), and a wide regime runs the semantic SDD histories over vtrees whose variables are spread over up to 200 labels. Scale regime semantic_big: one hash-identified builder (d-DNNF store, and SDD builder on a right-linear vtree) is filled with every suffix cube over 18 variables (524 286 nodes; 20 variables in the thorough tier) through get_or_insert / and, and each of the 2^18 full cubes is then evaluated structurally on its own assignment and two neighbours: a merge of two different functions (a collision in whatever part of the 64-bit hash the node table compares) shows as a cube that does not denote its minterm. Regime zero_divisors factors the 64-bit modulus (Miller-Rabin, Pollard rho); if it is composite with a balanced split it constructs, by meet in the middle over the minterm weights of the builder's own map, two 6-variable functions whose hashes multiply to zero, builds them with and/or and checks and(a, b) against the truth table (finding F14); with a prime modulus it checks the conjunction of two fixed functions.",
         "assumptions": ASSUME_COMMON + ["S3/S4: one prime and weight map per builder; collisions under 32-bit primes are recorded, not violations; ite/iff/xor/compose of SemanticSddBuilder are todo!() and excluded as in the property text"],
     },
     "C12": {
@@ -247,7 +247,7 @@ QUICK_SCALE = {"C01": 8, "C02": 24, "C03": 30, "C04": 24, "C05": 15, "C06": 10, 
 # thorough tier: sized so that each property takes roughly 1-5 minutes on 16 cores
 THOROUGH_SCALE = {"C01": 80, "C02": 64, "C03": 800, "C04": 200, "C05": 150, "C06": 100, "C07": 80, "C08": 300, "C09": 120,
                   "C10": 40, "C11": 120, "C12": 800, "C13": 300, "C14": 150, "C15": 80, "C16": 60, "C17": 300, "C18": 64}
-UNSCALED = {"force_on_the_clause_free_formula", "witness_states", "witness_compilations", "lru_default_size_grows", "semantic_big_builders", "semantic_big_minterms_checked", "bitgrid_pairs", "exh3_blocks", "exh3_orders", "domains_exhaustive", "shapes_enumerated", "edge_cases", "default_table_growths",
+UNSCALED = {"moduli_factored", "zero_divisor_conjunctions_checked", "force_on_the_clause_free_formula", "witness_states", "witness_compilations", "lru_default_size_grows", "semantic_big_builders", "semantic_big_minterms_checked", "bitgrid_pairs", "exh3_blocks", "exh3_orders", "domains_exhaustive", "shapes_enumerated", "edge_cases", "default_table_growths",
             "big_rederivations", "triples", "pairs", "lattice_pairs", "field_sub_pairs"}
 for _pid, _k in QUICK_SCALE.items():
     _c = PROPS[_pid]
